@@ -298,6 +298,12 @@ func AllItems() []Item {
 	for _, k := range AdjustOnlyKinds {
 		out = append(out, Item{k, Keys(k)[0]})
 	}
+	// keys that are legal but unusual: not in cleaned-path form, punctuation, a dash inside.
+	// The collector treats keys as opaque strings; so must every claim/clear pair.
+	out = append(out, Item{"mount", "/m9/"}, Item{"mount", "/x/../m9"}, Item{"device", "/dev//odd"},
+		Item{"env", "ODD.KEY-1"}, Item{"annotation", "odd/key.with-dash"}, Item{"annotation", "k-"},
+		// an original variable whose VALUE contains '=' (BaseContainer: "WITH=eq=in=value")
+		Item{"env", "WITH"})
 	for _, k := range ResourceKeyed {
 		out = append(out, Item{k, Keys(k)[0]})
 	}
@@ -356,7 +362,8 @@ func Systematic() []sysCase {
 		{"stop", "update", "ctrA"},
 		{"stop", "update", "ctr0"},
 	}
-	shapes := []string{"adjacent", "apart", "disjoint", "single-prepopulated", "rm-then-set", "middle-lone-rm", "ignored"}
+	shapes := []string{"adjacent", "apart", "disjoint", "single-prepopulated", "rm-then-set", "middle-lone-rm", "ignored",
+		"same-value", "same-as-original", "multi-removal", "multi-removal-reset"}
 	for _, it := range AllItems() {
 		for _, p := range paths {
 			if p.path == "update" && !IsResource(it.Kind) {
@@ -364,6 +371,10 @@ func Systematic() []sysCase {
 			}
 			for _, shape := range shapes {
 				if (shape == "rm-then-set" || shape == "middle-lone-rm") && !(p.path == "adjust" && Removable[it.Kind]) {
+					continue
+				}
+				if (shape == "multi-removal" || shape == "multi-removal-reset") &&
+					!(p.path == "adjust" && Removable[it.Kind] && it.Kind != "args") {
 					continue
 				}
 				if shape == "ignored" && p.path != "update" {
@@ -409,6 +420,33 @@ func Systematic() []sysCase {
 						rsp[a+1].Adjust = NewAdjust()
 						RemoveAdj(rsp[a+1].Adjust, it, true)
 						setOn(&rsp[a+3], p.path, p.target, it, a+3, 1, false)
+					case "multi-removal", "multi-removal-reset":
+						// two earlier plugins each add an entry; ONE later adjustment removes both
+						// (and, in the second shape, sets one of them again)
+						o := otherItem(it)
+						setOn(&rsp[a], p.path, p.target, it, a, 0, false)
+						setOn(&rsp[a+1], p.path, p.target, o, a+1, 0, false)
+						rsp[a+3].Adjust = NewAdjust()
+						RemoveAdj(rsp[a+3].Adjust, it, false)
+						RemoveAdj(rsp[a+3].Adjust, o, false)
+						if shape == "multi-removal-reset" {
+							SetAdj(rsp[a+3].Adjust, o, a+3, 1)
+						}
+						if first == 1 {
+							// the same with the original container holding both entries too
+							primeOriginal(&in, p.path, p.target, it, 8, 0)
+							primeOriginal(&in, p.path, p.target, o, 8, 1)
+						}
+					case "same-value":
+						// both plugins set the item to the very same value: still two setters
+						setOn(&rsp[a], p.path, p.target, it, 7, 0, false)
+						setOn(&rsp[a+2], p.path, p.target, it, 7, 0, false)
+					case "same-as-original":
+						// the first plugin's value equals what the original container / the runtime's
+						// request already carries; the second plugin sets another value
+						setOn(&rsp[a], p.path, p.target, it, 7, 0, false)
+						setOn(&rsp[a+1], p.path, p.target, it, a+1, 1, false)
+						primeOriginal(&in, p.path, p.target, it, 7, 0)
 					case "ignored":
 						setOn(&rsp[a], p.path, p.target, it, a, 0, false)
 						// the later plugin's update conflicts but is marked ignore-failure; it also
@@ -704,4 +742,46 @@ func Twins() []sysCase {
 		}
 	}
 	return out
+}
+
+// primeOriginal gives the original container (or, for an update of the container being
+// updated, the runtime's requested resources) the value a plugin (who, n) would set for `it`.
+func primeOriginal(in *CaseIn, path, target string, it Item, who, n int) {
+	tmp := NewAdjust()
+	if path == "adjust" {
+		SetAdj(tmp, it, who, n)
+		c := &in.Container
+		switch it.Kind {
+		case "annotation":
+			c.Annotations = append(c.Annotations, tmp.Annotations...)
+		case "mount":
+			c.Mounts = append(c.Mounts, tmp.Mounts...)
+		case "device":
+			c.Devices = append(c.Devices, tmp.Devices...)
+		case "env":
+			for _, e := range tmp.Env {
+				c.Env = append(c.Env, e.Key+"="+e.Value)
+			}
+		case "args":
+			c.Args = append([]string{}, tmp.Args...)
+		case "cgroupsPath":
+			c.CgroupsPath = tmp.CgroupsPath
+		case "oomScoreAdj":
+			c.OomScoreAdj = tmp.OomScoreAdj
+		case "rlimit":
+			c.Rlimits = append(c.Rlimits, tmp.Rlimits...)
+		case "cdi", "hugepage":
+			// CDI names are not part of a container; an original hugepage limit of the same
+			// size is a recorded guard - leave the original alone
+		default:
+			SetRes(&c.Resources, it, who, n)
+		}
+		return
+	}
+	if in.Kind == "update" && target == in.Container.Id && it.Kind != "hugepage" {
+		if in.Resources == nil {
+			in.Resources = FullResources(nil, 0)
+		}
+		SetRes(in.Resources, it, who, n)
+	}
 }
